@@ -2,7 +2,8 @@
    dumped views, and from there to the whole trace of a history of entry points. *)
 From Coq Require Import List ZArith Bool Lia Permutation.
 From Verif Require Import Lib.Wire C05.Model C05.Spec C05.Codec C05.Trace
-     C05.Proofs_base C05.Proofs_ledger C05.Proofs_index C05.Proofs_ghost C05.Proofs_sched.
+     C05.Proofs_base C05.Proofs_ledger C05.Proofs_index C05.Proofs_ghost C05.Proofs_sched
+     C05.Proofs_follow C05.Proofs_dead.
 Import ListNotations.
 Open Scope Z_scope.
 
@@ -171,12 +172,39 @@ Proof.
   rewrite E. apply eq_listZ_refl.
 Qed.
 
-Lemma prop_view_ok stable last code c :
+Lemma o_dead_ok_view D code c : uniq c -> dead_gone D c -> o_dead_ok D (view code c) = true.
+Proof.
+  intros Hu Hd.
+  assert (Hidx : forall ix, (forall u hard n, In (u, hard) D -> idx_mem n u ix = false) ->
+                            forallb (dead_entry_ok D) (idx_view ix) = true).
+  { intros ix Hix. apply forallb_forall. intros e He. apply In_idx_view in He.
+    destruct He as [s [Hin Hs]]. unfold dead_entry_ok. rewrite Hs. apply forallb_forall.
+    intros u Hus. apply (proj1 (In_sortZ _ _)) in Hus. apply negb_true_iff.
+    destruct (is_dead D u) eqn:E; [|reflexivity]. unfold is_dead in E.
+    apply existsb_exists in E. destruct E as [[u' hard] [Hd' Hu']]. cbn [fst] in Hu'.
+    apply Z.eqb_eq in Hu'. subst u'.
+    pose proof (Hix u hard (fst e) Hd') as Hf. rewrite (idx_mem_intro _ _ _ _ Hin Hus) in Hf.
+    discriminate Hf. }
+  unfold o_dead_ok. cbn [view o_onnode o_matchable o_alloc]. rewrite !andb_true_iff. repeat split.
+  - apply Hidx. intros u hard n Hin. apply (proj1 (Hd u hard Hin)).
+  - apply Hidx. intros u hard n Hin. apply (proj1 (Hd u hard Hin)).
+  - apply Hidx. intros u hard n Hin. apply (proj1 (Hd u hard Hin)).
+  - apply forallb_views. intros i Hi. apply negb_true_iff.
+    destruct (existsb (fun d : Z * bool => (fst d =? v_uid (info_view i)) && (snd d || negb (v_node (info_view i) =? 0))) D) eqn:E;
+      [|reflexivity].
+    apply existsb_exists in E. destruct E as [[u hard] [Hin Hx]]. cbn [fst snd info_view v_uid v_node] in Hx.
+    apply andb_true_iff in Hx. destruct Hx as [Hx1 Hx2]. apply Z.eqb_eq in Hx1. subst u.
+    destruct (proj2 (Hd _ _ Hin) i (uniq_find c i Hu Hi)) as [Hh Hn]. subst hard. rewrite Hn in Hx2.
+    discriminate Hx2.
+Qed.
+
+Lemma prop_view_ok stable last S D code c :
   all_infos exact_inv c -> all_infos bounds_inv c -> (stable = true -> jinv c) ->
   (forall L, last = Some L -> ghost L c) ->
-  prop_view stable last (view code c) = 0.
+  follows S c -> uniq c -> (stable = true -> dead_gone D c) ->
+  prop_view stable last S D (view code c) = 0.
 Proof.
-  intros He Hb Hj Hgh. unfold prop_view.
+  intros He Hb Hj Hgh Hfo Hu Hd. unfold prop_view.
   rewrite (forallb_views v_bounds_ok) by (intros i Hi; apply v_bounds_ok_view, (Hb i Hi)).
   rewrite (forallb_views v_exact_ok) by (intros i Hi; apply v_exact_ok_view, (He i Hi)).
   assert (Hl : match last with
@@ -187,11 +215,14 @@ Proof.
     rewrite (forallb_views (v_ghost_ok L)); [reflexivity|].
     intros i Hi. apply (v_ghost_ok_view L c); [apply Hgh; reflexivity|exact Hi]. }
   rewrite Hl.
+  rewrite (forallb_views (v_names_ok S)) by (intros i Hi; apply (v_names_ok_view S c); assumption).
+  rewrite (forallb_views (v_amounts_ok S)) by (intros i Hi; apply (v_amounts_ok_view S c); assumption).
   rewrite (forallb_views v_once_ok) by (intros i _; apply v_once_ok_view).
   rewrite (forallb_views v_matchable_def) by (intros i _; apply v_matchable_def_view).
   cbn [negb]. destruct stable; [|reflexivity].
   destruct (Hj eq_refl) as [Hs [Hc Hn]].
-  rewrite o_sound_view, o_complete_view, o_visit_ok_view by assumption. reflexivity.
+  rewrite o_sound_view, o_complete_view, o_visit_ok_view by assumption.
+  rewrite o_dead_ok_view; [reflexivity|exact Hu|apply Hd; reflexivity].
 Qed.
 
 (* ---------- whole traces of entry points ---------- *)
@@ -211,16 +242,41 @@ Proof.
     + destruct (e_op p); reflexivity.
 Qed.
 
+Lemma rsv_add_nonneg s : forallb op_nonneg (lower_rsv_add s) = true.
+Proof. unfold lower_rsv_add. destruct (is_active s); reflexivity. Qed.
+Lemma rsv_update_nonneg s : forallb op_nonneg (lower_rsv_update s) = true.
+Proof.
+  unfold lower_rsv_update. destruct (is_active s); [reflexivity|]. destruct (is_finished s); reflexivity.
+Qed.
+Lemma g_delete_nonneg s : forallb op_nonneg (g_delete s) = true.
+Proof. unfold g_delete. destruct (s_node s =? 0); reflexivity. Qed.
+Lemma g_update_nonneg o s : forallb op_nonneg (g_update o s) = true.
+Proof.
+  unfold g_update.
+  repeat match goal with
+         | |- context [if ?b then _ else _] => destruct b
+         end; try reflexivity; apply g_delete_nonneg.
+Qed.
+Lemma compose_nonneg who p g :
+  forallb op_nonneg p = true -> forallb op_nonneg g = true -> forallb op_nonneg (compose who p g) = true.
+Proof.
+  intros Hp Hg. unfold compose. destruct (who =? 1); [|destruct (who =? 2)];
+    try rewrite forallb_app; try rewrite Hp; try rewrite Hg; reflexivity.
+Qed.
+
 Lemma lower_nonneg c h : hop_nonneg h = true -> forallb op_nonneg (lower c h) = true.
 Proof.
   destruct h; cbn [hop_nonneg lower]; intros H; try reflexivity.
-  - destruct (is_active s); reflexivity.
-  - destruct (is_active s); [reflexivity|]. destruct (is_finished s); reflexivity.
+  - apply rsv_add_nonneg.
+  - apply rsv_update_nonneg.
   - cbn. rewrite H. reflexivity.
   - apply pod_update_nonneg, H.
   - apply andb_true_iff in H. apply pod_update_nonneg, H.
   - apply pod_delete_nonneg.
   - destruct (sched_target c req n t); [|reflexivity]. cbn. rewrite H. reflexivity.
+  - apply compose_nonneg; [apply rsv_add_nonneg|reflexivity].
+  - apply compose_nonneg; [apply rsv_update_nonneg|apply g_update_nonneg].
+  - apply compose_nonneg; [reflexivity|apply g_delete_nonneg].
 Qed.
 
 Lemma all_along_nonneg c l :
@@ -309,32 +365,41 @@ Proof.
   intros k. rewrite (He k). split; [|lia]. rewrite held_unfold. apply held_of_nonneg, Hw.
 Qed.
 
-Lemma trace_full_gen : forall hs c st last code0,
+Lemma trace_full_gen : forall hs c f code0,
   hist_nonneg hs = true ->
-  all_infos exact_inv c -> (st = true -> jinv c) -> (forall L, last = Some L -> ghost L c) ->
-  uniq c ->
-  all_zero (codes (claims c hs) hs (flags c st last hs) (o_infos (view code0 c))
+  all_infos exact_inv c -> (f_stable f = true -> jinv c) ->
+  (forall L, f_last f = Some L -> ghost L c) ->
+  uniq c -> follows (f_specs f) c -> (f_stable f = true -> dead_gone (f_dead f) c) ->
+  all_zero (codes (claims c hs) hs (flags c f hs) (o_infos (view code0 c))
                   (map (fun p : Z * cache => view (fst p) (snd p)) (htrace c hs))) = true.
 Proof.
-  induction hs as [|h t IH]; intros c st last code0 Hnn He Hj Hgh Hu; [reflexivity|].
+  induction hs as [|h t IH]; intros c f code0 Hnn He Hj Hgh Hu Hfo Hd; [reflexivity|].
   cbn [hist_nonneg forallb] in Hnn. apply andb_true_iff in Hnn. destruct Hnn as [Hh Ht].
   cbn [claims flags htrace map codes all_zero forallb fst snd].
-  set (st' := st && all_along node_stable_op c (lower c h)).
-  set (last' := next_last c (lower c h) last).
+  set (f' := next_flag c h f).
   assert (He' : all_infos exact_inv (hstep c h)).
   { apply exact_run; [apply all_along_nonneg, lower_nonneg, Hh|exact He]. }
-  assert (Hj' : st' = true -> jinv (hstep c h)).
-  { unfold st'. intros E. apply andb_true_iff in E. destruct E as [E1 E2].
-    apply jinv_run; [exact E2|apply Hj, E1]. }
-  assert (Hgh' : forall L, last' = Some L -> ghost L (hstep c h)).
-  { unfold last', next_last. intros L HL. destruct last as [L0|]; [|discriminate].
+  assert (Hst' : f_stable f' = true ->
+                 f_stable f = true /\ all_along node_stable_op c (lower c h) = true
+                 /\ hop_stable c h = true).
+  { unfold f', next_flag. cbn [f_stable]. intros E. apply andb_true_iff in E. destruct E as [E E3].
+    apply andb_true_iff in E. destruct E as [E1 E2]. auto. }
+  assert (Hj' : f_stable f' = true -> jinv (hstep c h)).
+  { intros E. destruct (Hst' E) as [E1 [E2 _]]. apply jinv_run; [exact E2|apply Hj, E1]. }
+  assert (Hgh' : forall L, f_last f' = Some L -> ghost L (hstep c h)).
+  { unfold f', next_flag, next_last. cbn [f_last]. intros L HL. destruct (f_last f) as [L0|]; [|discriminate].
     destruct (all_along sync_op c (lower c h)) eqn:Es; [|discriminate].
     inversion HL; subst L. apply ghost_run; [exact Es|apply Hgh; reflexivity]. }
   assert (Hu' : uniq (hstep c h)) by (apply uniq_run, Hu).
+  assert (Hfo' : follows (f_specs f') (hstep c h)).
+  { unfold f', next_flag. cbn [f_specs]. apply follows_run, Hfo. }
+  assert (Hd' : f_stable f' = true -> dead_gone (f_dead f') (hstep c h)).
+  { intros E. destruct (Hst' E) as [E1 [E2 E3]]. unfold f', next_flag. cbn [f_dead].
+    apply dead_gone_hstep; [apply Hj, E1|exact E3|exact E2|apply Hd, E1]. }
   apply andb_true_iff. split.
   - unfold step_code. cbn [fst snd].
     rewrite (sched_code_ok c h code0 (hcode c h) Hu). cbn [Z.eqb negb].
-    rewrite prop_view_ok; [|exact He'|apply bounds_of_exact, He'|exact Hj'|exact Hgh'].
+    rewrite prop_view_ok; [|exact He'|apply bounds_of_exact, He'|exact Hj'|exact Hgh'|exact Hfo'|exact Hu'|exact Hd'].
     cbn. rewrite claim_ok_view. reflexivity.
   - apply IH; assumption.
 Qed.
@@ -343,11 +408,13 @@ Lemma trace_full hs :
   hist_nonneg hs = true ->
   all_zero (codes (claims init_cache hs) hs (flags_of hs) [] (views_of hs)) = true.
 Proof.
-  intros H. apply (trace_full_gen hs init_cache true (Some []) 0); try exact H.
+  intros H. apply (trace_full_gen hs init_cache flag0 0); try exact H.
   - apply all_infos_init.
   - intros _. apply jinv_init.
   - intros L _. apply ghost_init.
   - apply uniq_init.
+  - apply follows_init.
+  - intros _. apply dead_gone_init.
 Qed.
 
 Lemma first_nonzero_all_zero l : all_zero l = true -> first_nonzero l = 0.
